@@ -282,6 +282,18 @@ def clause_b(ctx, idx, reg, res) -> None:
                     if isinstance(c.func, ast.Attribute) and c.func.attr == "assign" and (is_connector_expr(c.func.value) or (
                             isinstance(c.func.value, ast.Name) and c.func.value.id == "self" and sc.cls is not None and sc.cls.is_subclass_of(res.connector_base))):
                         n_assign += 1
+                        # `x = connector.assign(x, ...)` on a local that is never read again (not returned, not stored): a dead store -
+                        # the update exists only for connectors whose assign works in place
+                        if isinstance(st, ast.Assign) and st.value is c and len(st.targets) == 1 and isinstance(st.targets[0], ast.Name):
+                            nm_ = st.targets[0].id
+                            later_reads = [x for x in walk_no_nested(sc.node) if isinstance(x, ast.Name) and x.id == nm_ and isinstance(x.ctx, ast.Load)
+                                           and (x.lineno, x.col_offset) > (st.lineno, st.col_offset) and not any(x is y for y in ast.walk(st))]
+                            in_loop = any(isinstance(l_, (ast.For, ast.While)) and any(st is y for y in ast.walk(l_)) for l_ in walk_no_nested(sc.node))
+                            if not later_reads and not in_loop:
+                                key = f"{sc.qualname}|assign-result-dead|{nm_}"
+                                ctx.violation("C09b", key, sc.file, c.lineno,
+                                              f"the result of connector.assign(...) is bound to the local `{nm_}`, which is never read again (not returned, "
+                                              f"not stored into the state): with JAX/TensorFlow, where assign returns a new array, the update is lost", norm(st)[:100])
                         if isinstance(st, ast.Expr) and st.value is c:
                             key = f"{sc.qualname}|assign-result-discarded|{norm(c.args[0]) if c.args else ''}"
                             ctx.violation("C09b", key, sc.file, c.lineno,
